@@ -182,5 +182,15 @@ func init() {
 			untranslatable = append(untranslatable, "checkconn_site")
 		}
 		emitBool("checkconn_deadline_before_noop", ccArm, "client.go checkConn: UpdateDeadline precedes Noop")
+
+		// sendSingleMsg: a failed RSET after a failed MAIL / RCPT / DATA closes the connection; a rejected DATA is
+		// followed by RSET (repairs of C03/C04 that change the send dialogue the dial-and-send model runs through)
+		sendAbort := false
+		if fn, ok := p.funcs["Client.sendSingleMsg"]; ok && fn.Body != nil {
+			sendAbort = len(callPositions(p, fn.Body, "client.Close")) >= 3 && len(callPositions(p, fn.Body, "client.Reset")) >= 3
+		} else {
+			untranslatable = append(untranslatable, "sendsingle_site")
+		}
+		emitBool("send_aborts_on_failed_rset", sendAbort, "client.go sendSingleMsg: RSET after a rejected DATA; client.Close() when the RSET after a failed MAIL/RCPT/DATA fails")
 	})
 }
